@@ -228,7 +228,22 @@ class PubSubRun:
             a.learn_id()
         pl = payload_for(self.w.tag_counter + 1, n)
         cut = ch.flag("pub.partial", 1, 10)
-        raw = a.frame(t, pl, dest_mod=dm, dest_host=dh)
+        extra = {}
+        if ch.flag("pub.oddhdr", 1, 6):
+            # the remaining header fields are the sender's business: whatever stands there is forwarded untouched
+            extra = dict(recv_time=ch.choose("pub.odd.rt", [0.0, 123.5, -1.0]),
+                         remaining_bytes=ch.choose("pub.odd.rem", [0, 77, -1]),
+                         is_dynamic=ch.choose("pub.odd.dyn", [0, 1, 7]),
+                         reserved=ch.choose("pub.odd.res", [0, 0xDEADBEEF, 1]))
+            if self.w.timecode:
+                extra.update(utc_seconds=ch.choose("pub.odd.us", [0, 1700000000, 0xFFFFFFFF]),
+                             utc_fraction=ch.choose("pub.odd.uf", [0, 999999, 0xFFFFFFFF]))
+            if ch.flag("pub.odd.src", 1, 3):
+                # ... including a source id that is not the sender's own
+                others = [x.mod_id for x in self.actors if x is not a and x.alive and x.mod_id > 0]
+                extra["src"] = ch.choose("pub.odd.srcv", others + [0, 55])
+            self.res.probes["odd_header_fields"] += 1
+        raw = a.frame(t, pl, dest_mod=dm, dest_host=dh, **extra)
         if cut and len(raw) > 1:
             k = 1 + ch.pick("pub.cut", len(raw) - 1)
             a.send_partial(raw, k)
